@@ -175,7 +175,12 @@ func verifArbitraryFile(F int) *descriptorpb.FileDescriptorProto {
 		oneofs = 1
 	}
 	for i := 0; i < nFields; i++ {
-		m.Field = append(m.Field, verifDrawField([]string{"first", "second_one"}[i], int32(i+1), oneofs))
+		// (a field literally called "keys" is where the legacy entity lookup looks)
+		name := []string{"first", "second_one"}[i]
+		if i == 0 && verifBoolean("firstFieldNamedKeys") {
+			name = "keys"
+		}
+		m.Field = append(m.Field, verifDrawField(name, int32(i+1), oneofs))
 	}
 	// N refers back to M (mutual recursion, optionally flattened: a flatten cycle
 	// through two messages) and to itself
